@@ -116,10 +116,11 @@ def flip_sig(wire):
     return bytes(b)
 
 
-def build_case(rng, depth, dev):
+def build_case(rng, depth, dev, link=None):
     """-> (hierarchy, data wire, served dict name-tuple -> wire, unserved set, nacked set, expected_valid, link)"""
     H = Hierarchy(rng, depth, '%04x' % rng.getrandbits(16))
-    link = rng.randint(1, depth + 1)          # 1..depth = certificate of that level, depth+1 = the data packet
+    if link is None:
+        link = rng.randint(1, depth + 1)          # 1..depth = certificate of that level, depth+1 = the data packet
     unserved, nacked = set(), set()
     valid = True
     suffix = b'p%04x' % rng.getrandbits(16)
@@ -251,12 +252,14 @@ async def validate(validator, wire):
 
 
 def check_single(ctx, rng):
-    n = ctx.n(90, 6000)
+    n = ctx.n(192, 6000)
     for i in range(n):
         depth = rng.randint(1, 4)
-        dev = DEVIATIONS[i % len(DEVIATIONS)] if i < 3 * len(DEVIATIONS) else rng.choice(DEVIATIONS)
+        dev = DEVIATIONS[i % len(DEVIATIONS)]
+        # alternate between the data packet and a certificate as the deviating link
+        want_link = depth + 1 if (i // len(DEVIATIONS)) % 2 == 0 else rng.randint(1, depth)
         try:
-            H, data, served, unserved, nacked, valid, link = build_case(rng, depth, dev)
+            H, data, served, unserved, nacked, valid, link = build_case(rng, depth, dev, want_link)
         except Exception as e:   # noqa
             ctx.report(f'hierarchy-construction-raises:{type(e).__name__}@{raising_site(e)[0]}', f'{e!r}', {'deviation': dev})
             continue
